@@ -151,8 +151,8 @@ class Printer:
         styles = ['plain', 'plain', 'single', 'double']
         if not flow and not simple and block_ok:
             styles += ['block', 'block']
-        if r.random() < 0.06:
-            return p.rstrip() if p else '~'                                 # empty node (only properties)
+        if r.random() < 0.08:
+            return p.rstrip() if p else ('' if r.random() < 0.6 else '~')   # empty node (only properties, or nothing at all)
         s = r.choice(styles)
         if s == 'plain':
             return p + self.plain(flow, ind, simple)
@@ -206,6 +206,8 @@ class Printer:
             return ' ' + self.flow(node, ind + 1) + self.comment()
         p = self.props(True)
         n2 = ind + r.choice([1, 2, 2, 4]) if after != 'doc' else max(ind, 0) + r.choice([0, 0, 2])
+        if node[0] == 'Seq' and after in (':', '?') and ind >= 0 and r.random() < 0.4:
+            n2 = ind                                    # indentless: the sequence sits at the indentation of its key
         head = (' ' + p.rstrip() if p else '') + self.comment()
         out = head
         if node[0] == 'Seq':
@@ -251,6 +253,9 @@ class Printer:
         if self.uses_e or r.random() < 0.05:
             head += '%TAG !e! tag:example.com,2000:' + self.nl()
             explicit = True
+        elif r.random() < 0.1:
+            head += r.choice(['%TAG ! tag:example.com,2000:', '%TAG !! tag:example.com,2000:', '%TAG ! !my-']) + self.comment(0.05) + self.nl()
+            explicit = True
         if explicit:
             text = head + '---' + body
         else:
@@ -259,6 +264,33 @@ class Printer:
         if r.random() < 0.2:
             text += '...' + self.comment() + self.nl()
         return text
+
+
+def random_structure(rnd, docs=None):
+    """event kinds of a seeded random stream: 1-3 documents, nesting depth <= 3, up to 3 entries per collection"""
+    out = ['StreamStart']
+
+    def node(depth):
+        x = rnd.random()
+        if depth >= 3 or x < 0.45:
+            out.append('Scalar' if rnd.random() < 0.9 else 'Alias')
+        elif x < 0.72:
+            out.append('SequenceStart')
+            for _ in range(rnd.randrange(0, 4)):
+                node(depth + 1)
+            out.append('SequenceEnd')
+        else:
+            out.append('MappingStart')
+            for _ in range(rnd.randrange(0, 4)):
+                node(depth + 1 if rnd.random() < 0.15 else 3)       # keys are mostly scalars
+                node(depth + 1)
+            out.append('MappingEnd')
+    for _ in range(docs or rnd.choice([1, 1, 2, 3])):
+        out.append('DocumentStart')
+        node(0)
+        out.append('DocumentEnd')
+    out.append('StreamEnd')
+    return out
 
 
 BREAKS = ['\n', '\r', '\r\n', '\x85', '\u2028', '\u2029']
